@@ -131,6 +131,7 @@ type c14Sub struct {
 }
 
 type c14Sys struct {
+	nops   int // operations applied so far
 	ops    []c14Op
 	topics []string
 	b      *Broker
@@ -289,10 +290,21 @@ func (p c14Order) Choose(n int, label string) int    { return int(p) % n }
 func (p c14Order) ChooseDev(n int, label string) int { return int(p) % n }
 
 var c14Passes = []c14Order{0, 1}
+var c14Alt int
 
 func (s *c14Sys) check(c *mc.Ctx, o c14Op) {
+	s.nops++
+	if c.InPrefix {
+		return // replay of the path to a state that was checked when it was first reached
+	}
 	defer vrt.SetOrderChooser(nil)
-	for _, pass := range c14Passes {
+	passes := c14Passes
+	if s.nops >= 4 {
+		// the deepest level of the thorough tier (4th operation): one of the two orders, alternating
+		c14Alt++
+		passes = c14Passes[c14Alt%2 : c14Alt%2+1]
+	}
+	for _, pass := range passes {
 		vrt.SetOrderChooser(pass)
 		s.checkRouting(c, o, int(pass))
 	}
